@@ -72,6 +72,7 @@ impl C18 {
                         }
                         // M6b: every other way of consuming the iterator sees the same descriptors
                         crate::iterproto::check(ctx, "efi-mmap", &|| tag.memory_areas(), &|d: &EFIMemoryDesc| (d as *const _ as usize, lib_desc(d)), 4096, true);
+                        crate::iterproto::check_clone(ctx, "efi-mmap", &|| tag.memory_areas(), &|d: &EFIMemoryDesc| (d as *const _ as usize, lib_desc(d)), 4096);
                     } else if ok {
                         viol(ctx, "count", format!("{} items, expected {}", k, n));
                     } else if k == 0 && l / d.max(1) == 0 && d != 0 {
